@@ -572,7 +572,8 @@ struct TemplateCore {
                         break;
                     }
 
-                    if (match != 0) {
+                    if (end_offset != 0) {
+                        // Only if the tag's own closing '}' was found.
                         MathTag *tag   = (storage->Insert(TagBit{})).MakeMathTag();
                         tag->Offset    = (offset - TagPatterns::MathPrefixLength);
                         tag->EndOffset = end_offset;
